@@ -13,7 +13,7 @@
  * set / delete / set_subtree / copy calls on a small tree, then walk, copy,
  * delete.
  * Part E (degenerate vnadata objects): 12 routes to a boundary shape x 11
- * types x 21 operations (saves to every file family, conversions, setters,
+ * types x 22 operations (saves to every file family, conversions, setters,
  * resize, load).
  * Oracle: process survives, ASan/UBSan silent, call returns, invalid calls
  * return the documented failure value, after the free functions the
@@ -573,7 +573,7 @@ enum { VO_CKSAVE_NPD, VO_CKSAVE_S2P, VO_CKSAVE_TS, VO_SAVE_NPD, VO_SAVE_S1P,
     VO_SAVE_S2P, VO_SAVE_TS, VO_FSAVE, VO_CONV_INPLACE, VO_CONV_OUT,
     VO_CONV_ZIN, VO_GETTERS, VO_SET_Z0V, VO_SET_FZ0V, VO_SET_ALL_Z0,
     VO_ADD_F, VO_RESIZE_UP, VO_SET_TYPE, VO_SET_FV, VO_LOAD_INTO,
-    VO_FORMATS, VO_NOP };
+    VO_FORMATS, VO_APPLY_INTO, VO_NOP };
 static const char *const ve_op_name[VO_NOP] = {
     "cksave .npd", "cksave .s2p", "cksave .ts", "save .npd", "save .s1p",
     "save .s2p", "save .ts", "fsave", "convert in place (every type)",
@@ -581,6 +581,7 @@ static const char *const ve_op_name[VO_NOP] = {
     "set_z0_vector", "set_fz0_vector", "set_all_z0", "add_frequency",
     "resize to 2x2x3", "set_type (every type)", "set_frequency_vector",
     "load a 2-port file into it", "set_format (every spelling) + cksave",
+    "vnacal_apply_m with it as the output",
 };
 
 static vnadata_t *ve_build(int route, vnadata_parameter_type_t type,
@@ -747,6 +748,9 @@ static void ve_apply(fx_t *F, vnadata_t *vdp, int op, vf_errlog *lg)
 	break;
     case VO_SET_FV: (void)vnadata_set_frequency_vector(vdp, f4); break;
     case VO_LOAD_INTO: (void)vnadata_load(vdp, F->path_s2p); break;
+    case VO_APPLY_INTO:
+	(void)vnacal_apply_m(F->vcp, F->ciA, F->f3, 3, F->mp, 2, 2, vdp);
+	break;
     case VO_FORMATS:
 	for (size_t i = 0; i < sizeof(fmts) / sizeof(fmts[0]); ++i) {
 	    (void)vnadata_set_format(vdp, fmts[i]);
